@@ -70,6 +70,27 @@ func checkC05(c *Ctx, r *Report) {
 	r.floor("R5.7", 8)
 	c05Validate(c, r)
 	r.floor("R5.9", 1)
+	c05Definitions(c, r)
+	r.floor("R5.10", 2)
+	// R5.11: the window the typed accessors work on is the one the response covers: NewRegisters
+	// computes its bounds without wrap-around and every access stays inside (C04 R4.1/R4.4/R4.W)
+	{
+		tmp := newReport(r.Prop, r.Tier)
+		runC04On(c, tmp, "packet", "Registers", "NewRegisters", false)
+		n := 0
+		for _, it := range tmp.items {
+			if (it.Rule == "R4.W" || it.Rule == "R4.4" || it.Rule == "R4.1") && !it.OK {
+				it.Rule = "R5.11"
+				r.add(it)
+				n++
+			}
+		}
+		r.instance("R5.11", 1)
+		if n == 0 {
+			r.ok("R5.11", "packet.NewRegisters", "window bounds are computed without wrap-around and every typed access of an in-window register succeeds (C04 R4.1/R4.4/R4.W all discharged)", "-", true)
+		}
+		r.floor("R5.11", 1)
+	}
 	c05FullRange(c, r, "R5.7")
 	c05Loops(c, r)
 	c05SlotMerge(c, r)
@@ -1397,4 +1418,75 @@ func mentionsKey(cj Conj, part string) bool {
 		}
 	}
 	return false
+}
+
+// c05Definitions: R5.10 — a field is reported "attached to its own definition": the builder
+// methods that accept definitions from the caller (a parameter of type Field, *BField or
+// Fields) store them as given; none of them writes to a field of a Field value.
+func c05Definitions(c *Ctx, r *Report) {
+	sp := c.pkg("")
+	ft := sp.Type("Field")
+	if ft == nil {
+		r.undecided("R5.10", "modbus.Field", "type Field not found", "-")
+		return
+	}
+	fieldT := ft.Type()
+	takesDefinitions := func(fn *ssa.Function) bool {
+		for _, p := range fn.Params[1:] {
+			t := p.Type()
+			if pt, ok := t.(*types.Pointer); ok {
+				t = pt.Elem()
+			}
+			if types.Identical(t, fieldT) {
+				return true
+			}
+			if sl, ok := t.Underlying().(*types.Slice); ok && types.Identical(sl.Elem(), fieldT) {
+				return true
+			}
+			if st, ok := t.Underlying().(*types.Struct); ok {
+				for i := 0; i < st.NumFields(); i++ {
+					if st.Field(i).Embedded() && types.Identical(st.Field(i).Type(), fieldT) {
+						return true
+					}
+				}
+			}
+		}
+		return false
+	}
+	n := 0
+	for _, fn := range c.allFuncs("") {
+		if fn.Signature.Recv() == nil || fn.Parent() != nil || len(fn.Params) < 2 {
+			continue
+		}
+		if nm, ok := deref(fn.Signature.Recv().Type()).(*types.Named); !ok || nm.Obj().Name() != "Builder" {
+			continue
+		}
+		if !takesDefinitions(fn) {
+			continue
+		}
+		n++
+		r.instance("R5.10", 1)
+		id := fnID(fn)
+		r.funcs[id] = true
+		bad := ""
+		for _, b := range fn.Blocks {
+			for _, in := range b.Instrs {
+				st, ok := in.(*ssa.Store)
+				if !ok {
+					continue
+				}
+				if fa, ok := st.Addr.(*ssa.FieldAddr); ok && types.Identical(deref(fa.X.Type()), fieldT) {
+					bad = fmt.Sprintf("stores to Field.%s at %s", fieldVarOf(fa).Name(), c.pos(st.Pos()))
+				}
+			}
+		}
+		if bad == "" {
+			r.ok("R5.10", id, "the caller's field definitions are stored as given (no field of a Field value is written)", c.pos(fn.Pos()), true)
+		} else {
+			r.fail("R5.10", id, "a definition handed in by the caller is rewritten before it is stored: the field reported later is not the caller's definition (and may be read from another device)", c.pos(fn.Pos()), bad, "definition-rewritten")
+		}
+	}
+	if n == 0 {
+		r.undecided("R5.10", "modbus.Builder", "no Builder method accepts field definitions", "-")
+	}
 }
